@@ -293,7 +293,7 @@ def wallet_history(job):
             t, recips = unsent.pop()
             kw, want = bump_args(t)
             # an input added by the bump is selected with bumpfee's own default (min_confirms=1), not with the request's
-            q2 = dict(q, fee=want, feemin=0, feemax=0, explicit=[], above=int(t.fee), minconf=min(q['minconf'], 1))
+            q2 = dict(q, fee=want, feemin=0, feemax=0, explicit=[], inkeys=[], above=int(t.fee), minconf=min(q['minconf'], 1))
             ev = {'op': 'tx', 'q': q2, 'created': False, 'stored': False, 'tnum': 0, 'kind': 'bumpfee', 'x': {'ins': [], 'outs': [], 'fee': 0, 'vsize': 0}}
             try:
                 t.bumpfee(**kw)
@@ -337,7 +337,7 @@ def wallet_history(job):
             t, recips = replace.pop()
             kw, want = bump_args(t)
             old_txid, old_tnum = t.txid, txnum(table, t.txid)
-            q2 = dict(q, fee=want, feemin=0, feemax=0, explicit=[], above=int(t.fee), minconf=min(q['minconf'], 1))
+            q2 = dict(q, fee=want, feemin=0, feemax=0, explicit=[], inkeys=[], above=int(t.fee), minconf=min(q['minconf'], 1))
             err = None
             try:
                 t.bumpfee(broadcast=True, **kw)
